@@ -76,6 +76,12 @@ var xlDomWhitelist = []xlFunc{
 	{Pkg: "dom", Recv: "containerImpl", Name: "Search", Lean: "containerSearch"},
 	{Pkg: "dom", Recv: "containerImpl", Name: "Lookup", Lean: "containerLookup", NullRes: true},
 	{Pkg: "dom", Recv: "containerImpl", Name: "Child", Lean: "containerChild", NullRes: true, RecFuel: "($1).length + 1"},
+	// dom/overlay.go: the walkers behind OverlayDocument.Walk (the visitor is a parameter)  [C06]
+	{Pkg: "dom", Name: "walkNode", Lean: "walkNode", RecFuel: "2 * GoDom.sizeN $4 + 2", RecGroup: "walk"},
+	{Pkg: "dom", Name: "walkList", Lean: "walkList", RecFuel: "2 * GoDom.sizeL $3 + 2", RecGroup: "walk"},
+	{Pkg: "dom", Name: "walkContainer", Lean: "walkContainer", RecFuel: "2 * GoDom.sizeC $3 + 2", RecGroup: "walk"},
+	{Pkg: "dom", Recv: "overlayDocument", Name: "Lookup", Lean: "overlayLookup", Flatten: true, NullRes: true},
+	{Pkg: "dom", Recv: "overlayDocument", Name: "LookupAny", Lean: "overlayLookupAny", Flatten: true, NullRes: true},
 	// diff/diff.go  [C07]
 	{Pkg: "diff", Name: "appendMod", Lean: "appendMod", Acc: "res"},
 	{Pkg: "diff", Name: "flattenLeaf", Lean: "flattenLeaf", Acc: "res"},
@@ -135,6 +141,9 @@ func domKind(t types.Type) string {
 		if isStringy(y.Key()) && domKind(y.Elem()) == "node" {
 			return "cont"
 		}
+		if isStringy(y.Key()) && domKind(y.Elem()) == "cont" {
+			return "contmap" // map[string]dom.ContainerBuilder (the layers of an overlay document)
+		}
 		if isStringy(y.Key()) && domKind(y.Elem()) == "leaf" {
 			return "leafmap" // map[string]dom.Leaf (the result of Flatten)
 		}
@@ -160,6 +169,8 @@ func domKindLean(k string) string {
 		return "GoDom.Any"
 	case "leafmap":
 		return "GoDom.LeafMap"
+	case "contmap":
+		return "GoDom.ContMap"
 	}
 	return ""
 }
@@ -215,7 +226,7 @@ func (x *xl) nullable(e ast.Expr) bool {
 		return x.isOptVar(x.p.info.Uses[y])
 	case *ast.IndexExpr:
 		// m[k] on a map[string]Node: nil when the key is absent
-		if _, isMap := x.typeOf(y.X).Underlying().(*types.Map); isMap && domKind(x.typeOf(y.X)) == "cont" {
+		if _, isMap := x.typeOf(y.X).Underlying().(*types.Map); isMap && (domKind(x.typeOf(y.X)) == "cont" || domKind(x.typeOf(y.X)) == "contmap") {
 			return true
 		}
 	case *ast.CallExpr:
@@ -1279,7 +1290,8 @@ func (x *xl) domRegexpCall(c *ast.CallExpr, f *ast.SelectorExpr) ([]string, stri
 
 // domIndex: `m[k]` on a map[string]dom.Node (nil when absent)
 func (x *xl) domIndex(y *ast.IndexExpr) ([]string, string, bool, error) {
-	if _, isMap := x.typeOf(y.X).Underlying().(*types.Map); !isMap || domKind(x.typeOf(y.X)) != "cont" {
+	fn := map[string]string{"cont": "GoDom.mapGet", "contmap": "GoDom.contMapGet"}[domKind(x.typeOf(y.X))]
+	if _, isMap := x.typeOf(y.X).Underlying().(*types.Map); !isMap || fn == "" {
 		return nil, "", false, nil
 	}
 	bm, m, err := x.expr(y.X)
@@ -1290,5 +1302,5 @@ func (x *xl) domIndex(y *ast.IndexExpr) ([]string, string, bool, error) {
 	if err != nil {
 		return nil, "", true, err
 	}
-	return append(bm, bk...), "(GoDom.mapGet " + m + " " + k + ")", true, nil
+	return append(bm, bk...), "(" + fn + " " + m + " " + k + ")", true, nil
 }
